@@ -3,6 +3,7 @@ package symex
 import (
 	"fmt"
 	"go/types"
+	"strconv"
 	"strings"
 )
 
@@ -111,6 +112,14 @@ func (x *Exec) sliceElemsOf(sl Term) Term {
 
 func (x *Exec) sliceLen(sl Term) Term {
 	elem := x.elemOfSliceSort(sl.Sort)
+	// the length of a slice constructor with a literal length folds (loops over a literal slice unroll)
+	if pre := "(mk_" + string(sl.Sort) + " "; strings.HasPrefix(sl.S, pre) {
+		if args := sexprArgs(sl.S); len(args) == 5 {
+			if _, err := strconv.Atoi(args[2]); err == nil {
+				return Term{args[2], SInt}
+			}
+		}
+	}
 	return mk(SInt, "len_"+sortKey(elem), sl)
 }
 
@@ -319,4 +328,58 @@ func intRange(b *types.Basic) (string, string) {
 		return "0", "255"
 	}
 	return "", ""
+}
+
+// sexprArgs splits "(f a (b c) d)" into ["f", "a", "(b c)", "d"].
+func sexprArgs(s string) []string {
+	if len(s) < 2 || s[0] != '(' || s[len(s)-1] != ')' {
+		return nil
+	}
+	s = s[1 : len(s)-1]
+	var out []string
+	depth, start := 0, -1
+	inBar, inStr := false, false
+	for i := 0; i < len(s); i++ {
+		c := s[i]
+		switch {
+		case inBar:
+			if c == '|' {
+				inBar = false
+			}
+		case inStr:
+			if c == '"' {
+				inStr = false
+			}
+		case c == '|':
+			inBar = true
+			if start < 0 {
+				start = i
+			}
+		case c == '"':
+			inStr = true
+			if start < 0 {
+				start = i
+			}
+		case c == '(':
+			if start < 0 {
+				start = i
+			}
+			depth++
+		case c == ')':
+			depth--
+		case c == ' ' || c == '\n' || c == '\t':
+			if depth == 0 && start >= 0 {
+				out = append(out, s[start:i])
+				start = -1
+			}
+		default:
+			if start < 0 {
+				start = i
+			}
+		}
+	}
+	if start >= 0 {
+		out = append(out, s[start:])
+	}
+	return out
 }
